@@ -78,7 +78,7 @@ PROPS = {
             "RelIndexType1 merge: at most one entry in delta and one in total in the quick tier, so the size-based swap and the per-key vector swap are exercised only in their 'equal' outcome there (the 2-against-1 harnesses are in the thorough tier)",
         ],
     },
-    "C18": {
+    "C18X": {
         "crate": TABLES, "target": "kani-tables",
         "patterns": {"quick": ["c18::quick::"], "thorough": ["c18::quick::"]},
         "min_harnesses": {"quick": 2, "thorough": 2},
@@ -114,7 +114,7 @@ def check(prop, tier, only=None):
     cfg = PROPS[prop]
     t0 = time.time()
     patterns = cfg["patterns"][tier] if not only else [only]
-    target = os.path.join(C.CACHE, cfg["target"])
+    target = C.keyed_target_dir(cfg["target"])
     log = os.path.join(C.CACHE, "logs", "%s-%s.log" % (prop, tier))
     g = K.run_group(cfg["crate"], target, patterns, jobs=cfg.get("jobs", 8), timeout=cfg["timeout"][tier],
                     extra=cfg.get("extra"), env_extra=cfg.get("env"), log=log)
